@@ -291,6 +291,70 @@ theorem lookupKey_total {autos : List (α × Nat)} {a : α} (h : ∃ q ∈ autos
 
 end lookup
 
+/-! ### weight_power_scale -/
+
+section wps
+variable {K : Type} [Zero K] [One K] [Mul K] [Div K] [LT K] [DecidableEq K] [DecidableLT K]
+
+/-- the per-element computation of `scaleRow` is the scalar kernel applied to the two
+    autocorrelations found through `auto_indices[index1[k]]`, `auto_indices[index2[k]]` -/
+theorem scaleRow_structure (bad : K) (divide : Bool) (ai i1 i2 : List Nat) (visRe wRow out : List (Scalar K))
+    (h : scaleRow bad divide ai i1 i2 visRe wRow = .ok out) :
+    out.length = visRe.length ∧
+    ∀ (k j1 j2 p1 p2 : Nat) (a1 a2 w : Scalar K), k < visRe.length →
+      i1[k]? = some j1 → i2[k]? = some j2 → ai[j1]? = some p1 → ai[j2]? = some p2 →
+      visRe[p1]? = some a1 → visRe[p2]? = some a2 → wRow[k]? = some w →
+      out[k]? = some (kernelImpl bad divide a1 a2 w) := by
+  unfold scaleRow at h
+  cases hs : mapME (fun a => match getNat visRe a with
+      | .error e => .error e
+      | .ok v => .ok (if divide then v.recip else v)) ai with
+  | error e => simp [hs] at h
+  | ok autoScale =>
+    simp only [hs] at h
+    obtain ⟨hl, hp⟩ := mapME_ok h
+    obtain ⟨_, hsp⟩ := mapME_ok hs
+    refine ⟨by simpa using hl, ?_⟩
+    intro k j1 j2 p1 p2 a1 a2 w hk hi1 hi2 ha1 ha2 hv1 hv2 hw
+    obtain ⟨y, hy, hf⟩ := hp k k (List.getElem?_range hk)
+    obtain ⟨s1, hs1, hf1⟩ := hsp j1 p1 ha1
+    obtain ⟨s2, hs2, hf2⟩ := hsp j2 p2 ha2
+    rw [getNat_ok.2 hv1] at hf1
+    rw [getNat_ok.2 hv2] at hf2
+    simp only [Except.ok.injEq] at hf1 hf2
+    rw [getNat_ok.2 hi1, getNat_ok.2 hi2, getNat_ok.2 hw] at hf
+    simp only [getNat_ok.2 hs1, getNat_ok.2 hs2, Except.ok.injEq] at hf
+    rw [hy, ← hf, ← hf1, ← hf2]
+    rfl
+
+/-- `scaleRow` cannot fail when every index is in range -/
+theorem scaleRow_total (bad : K) (divide : Bool) (ai i1 i2 : List Nat) (visRe wRow : List (Scalar K))
+    (hai : ∀ p ∈ ai, p < visRe.length) (h1 : i1.length = visRe.length) (h2 : i2.length = visRe.length)
+    (hw : wRow.length = visRe.length) (hj1 : ∀ j ∈ i1, j < ai.length) (hj2 : ∀ j ∈ i2, j < ai.length) :
+    ∃ out, scaleRow bad divide ai i1 i2 visRe wRow = .ok out := by
+  unfold scaleRow
+  obtain ⟨autoScale, hs⟩ := mapME_total (f := fun a => match getNat visRe a with
+      | .error e => .error e
+      | .ok v => .ok (if divide then v.recip else v)) (l := ai) (by
+    intro p hp
+    rw [getNat_of_lt (hai p hp)]
+    exact ⟨_, rfl⟩)
+  rw [hs]
+  have hlen : autoScale.length = ai.length := (mapME_ok hs).1
+  apply mapME_total
+  intro k hk
+  have hk' : k < visRe.length := by simpa using hk
+  have e1 := getNat_of_lt (l := i1) (i := k) (by omega)
+  have e2 := getNat_of_lt (l := i2) (i := k) (by omega)
+  have e3 := getNat_of_lt (l := wRow) (i := k) (by omega)
+  have b1 : i1[k] < autoScale.length := by rw [hlen]; exact hj1 _ (List.getElem_mem _)
+  have b2 : i2[k] < autoScale.length := by rw [hlen]; exact hj2 _ (List.getElem_mem _)
+  rw [e1, e2, e3]
+  simp only [getNat_of_lt b1, getNat_of_lt b2]
+  exact ⟨_, rfl⟩
+
+end wps
+
 /-! ### chunk splitting -/
 
 theorem flatten_splitBy {α} : ∀ (sizes : List Nat) (l : List α), sizes.sum = l.length →
